@@ -48,14 +48,14 @@ impl Property for C12 {
             knobs: Knobs { max_nodes: 24, max_ops: 12, variant, ..Default::default() },
         };
         match tier {
-            Tier::Quick => vec![mk("clone_node", 60_000, 0), mk("clone_with_prefixes", 400_000, 1), mk("cwp-stripped", 300_000, 3), mk("xot_clone", 20_000, 2)],
-            Tier::Thorough => vec![mk("clone_node", 600_000, 0), mk("clone_with_prefixes", 2_000_000, 1), mk("cwp-stripped", 1_500_000, 3), mk("xot_clone", 100_000, 2)],
+            Tier::Quick => vec![mk("clone_node", 60_000, 0), mk("clone_with_prefixes", 400_000, 1), mk("cwp-stripped", 300_000, 3), mk("xot_clone", 20_000, 2), mk("clone_node-xml-decls", 40_000, 4)],
+            Tier::Thorough => vec![mk("clone_node", 600_000, 0), mk("clone_with_prefixes", 2_000_000, 1), mk("cwp-stripped", 1_500_000, 3), mk("xot_clone", 100_000, 2), mk("clone_node-xml-decls", 300_000, 4)],
         }
     }
 
     fn check(&self, src: &mut Src, ctx: &mut Ctx) -> Verdict {
         match ctx.knobs.variant {
-            0 => self.clone_node(src, ctx),
+            0 | 4 => self.clone_node(src, ctx),
             1 => self.clone_with_prefixes(src, ctx, false),
             3 => self.clone_with_prefixes(src, ctx, true),
             _ => self.xot_clone(src, ctx),
@@ -77,6 +77,25 @@ impl C12 {
         if src.ratio(1, 3) {
             if let Err(e) = crate::props::c05::adjacent_text_setup(&mut sim, src, &mut log) {
                 return Verdict::Fail(e);
+            }
+        }
+        if ctx.knobs.variant == 4 {
+            // plan clone_node-xml-decls: explicit declarations of the xml prefix — namespace nodes like any
+            // other, a clone has them too
+            let els: Vec<usize> = sim.model.alive().into_iter().filter(|n| sim.model.is_element(*n)).collect();
+            for e in els {
+                if src.ratio(1, 3) {
+                    let op = Op::NsInsert(e, "xml".to_string(), crate::model::XML_NS.to_string());
+                    let eff = apply_model(&mut sim.model, &op);
+                    sim.grow();
+                    let hs = sim.h.clone();
+                    let hf = move |i: usize| hs[i].expect("unbound");
+                    hist::exec(&mut sim.xot, &op, &hf);
+                    if let Err(er) = sim.compare(&eff) {
+                        return Verdict::Fail(format!("harness: declaring the xml prefix: {}", er));
+                    }
+                    ctx.label("explicit_xml_prefix_declaration");
+                }
             }
         }
         let alive = sim.model.alive();
